@@ -265,7 +265,8 @@ def correspond(ctx, exe, n_objects, n_oracle, n_inst):
             resets = (False,) if big else (False, True)
             ship.append((rel, nv, p, resets, pool.submit(model_chain, exe, p, nv, resets)))
         shards = max(1, SHARDS - 2)
-        descs = [orc.gen_desc(rng, ctx.thorough) for _ in range(n_oracle)] + \
+        fixed = orc.fixed_cases()
+        descs = fixed + [orc.gen_desc(rng, ctx.thorough) for _ in range(n_oracle - len(fixed))] + \
                 [gen_corr_desc(rng, ctx.thorough) for _ in range(n_objects - n_oracle)]
         oracle_descs = descs[:n_oracle]
         f1 = os.path.join(tmpdir, 'a.incon'); f2 = os.path.join(tmpdir, 'b.incon')
@@ -332,7 +333,7 @@ def correspond(ctx, exe, n_objects, n_oracle, n_inst):
         ctx.corr_cases('model-rewrite-vs-implementation-rewrite', len(w2l), skipped_object_holds_nan_or_inf=nnan)
         lap(ctx, 'model reads and rewrites done')
         # hypotheses and theorem instances, evaluated by the extracted model
-        nwf = nidh = nq = nqwf = nfit = nqfit = 0
+        nwf = nidh = nq = nqwf = nfit = nqfit = nst = nqst = 0
         for (k, _), mo in zip(cl, run_model(exe, [l for _, l in cl], shards)):
             d = descs[k]
             fl = dict(kv.split('=') for kv in mo.split(' ')) if '=' in mo else {}
@@ -350,9 +351,13 @@ def correspond(ctx, exe, n_objects, n_oracle, n_inst):
                     nidh += 1
                     if fl['idem'] != '1':
                         ctx.disagreement('theorem-instances(model)', orc.desc_to_json(d), mo, 'wf and idem hypotheses imply write(canon i) = write i')
-        ctx.corr_cases('theorem-instances(model)', len(cl), wf_fits_met=nfit, wf_met=nwf, wf_and_idem_hyps_met=nidh, within_quantifier=nq, within_quantifier_wf_fits_met=nqfit, within_quantifier_wf_met=nqwf)
+            if fl['wff'] == '1' and fl['st'] == '1':
+                nst += 1; nqst += k < n_oracle
+                if fl['idh'] != '1' or fl['idem'] != '1':
+                    ctx.disagreement('theorem-instances(model)', orc.desc_to_json(d), mo, 'wf_fits and stable_hyp imply idem_hyp and write(canon i) = write i (incon_write_idem)')
+        ctx.corr_cases('theorem-instances(model)', len(cl), wf_fits_met=nfit, wf_met=nwf, wf_and_idem_hyps_met=nidh, within_quantifier=nq, within_quantifier_wf_fits_met=nqfit, within_quantifier_wf_met=nqwf, wf_fits_and_stable_met=nst, within_quantifier_wf_fits_and_stable_met=nqst)
         ctx.hyp_met['incon_read_write: wf_fits (generated objects within the property quantifier)'] = '%d of %d' % (nqfit, nq)
-        ctx.hyp_met['incon_write_idem: wf and field idempotence (all evaluated objects)'] = '%d of %d' % (nidh, len(cl))
+        ctx.hyp_met['incon_write_idem: wf_fits and stable_hyp (generated objects within the property quantifier)'] = '%d of %d' % (nqst, nq)
         if nqfit * 4 < nq:
             ctx.proof_failures.append({'kind': 'finite', 'name': 'incon_read_write (hypothesis wf_fits is met by %d of %d generated objects)' % (nqfit, nq),
                                        'detail': 'the theorem has become (nearly) vacuous on the objects of the property quantifier'})
@@ -422,7 +427,9 @@ def known_witnesses():
     w2 = {'sim': 'TOUGH2', 'reset': False, 'nv': 2, 'check': True,
           'timing': {'kcyc': 1, 'iter': 2, 'nm': 3, 'tstart': 0.0, 'sumtim': 123456.74996},
           'blocks': [{'name': 'AAA 1', 'nseq': None, 'nadd': None, 'porosity': 0.1, 'perm': None, 'vars': [1.e5, 20.]}]}
-    return [w1, w2]
+    w3 = {'sim': 'TOUGH2', 'reset': True, 'nv': 2, 'check': True, 'timing': None,
+          'blocks': [{'name': 'AAA 1', 'nseq': None, 'nadd': None, 'porosity': 0.1, 'perm': None, 'vars': [-9.9999999999996e-100, 20.]}]}
+    return [w1, w2, w3]
 
 
 def oracle(ctx, descs, name='write-read-write'):
@@ -485,7 +492,7 @@ def run(ctx):
     n_inst = 1500 if ctx.thorough else 90      # objects on which the theorems' hypotheses and conclusions are evaluated by the model
     ctx.rule = ('initial-condition sets built through the public API: 0..12 (thorough: ..40) blocks named by mulgrid\'s own naming functions in all 4 conventions '
                 '(either justification and case, atmosphere names, 3-digit columns), 1..12 variables per block from 9 value classes (ordinary, negative, '
-                '3-digit exponents of both signs, zeros, rounding ties, carries into a longer exponent), porosity / permeabilities / nseq-nadd present or absent, '
+                '3-digit exponents of both signs, zeros, rounding ties, carries into a longer exponent), porosity / permeabilities / nseq-nadd present or absent, permeability triples with zeros (all-zero, partly zero, mixed across blocks; 24 fixed sets + random), '
                 'timing x reset, num_variables given or not; distinct by the full description; non-trivial when it has at least one block')
     ctx.trusted += ['Coq 8.16.1 kernel (coqc); vm_compute for the finite obligations over the regenerated table and the examples',
                     'translators tools/translate/tables.py and pyfun.py (AST, fail-closed); the AST reader of padstring\'s default length in tools/props/C13.py',
@@ -497,9 +504,9 @@ def run(ctx):
                         'every block of a set has the same number of variables and num_variables, when given, is that number (the file format does not record it)',
                         'read(write i) = canon i is proved from wf_fits (structure + every value fits its field) with no field-level hypothesis; that canon rounds to exactly q decimals '
                         'additionally uses that Fmt.sci prints q+1 mantissa digits (C02 correspondence, not proved)',
-                        'write(canon i) = write i (second file byte-identical) assumes per field that formatting the re-read double reproduces the text (idem_hyp: the 15-significant-digit '
-                        'round trip of binary64, decidable, NOT proved): those theorems are named _partial; the hypothesis is evaluated by the extracted model on generated objects and the byte '
-                        'identity by the oracle on the implementation']
+                        'write(canon i) = write i (second file byte-identical) is proved from wf_fits and stable_hyp: a computable guard excluding the recorded defects of the second write '
+                        '(long-header sumtim; lowered precision rounding into a shorter exponent), more than 14 printed decimals and printed decimal exponents outside [-300, 300] '
+                        '(for these the exact-rational trip argument is not carried out: covered by the model evaluation of idem_hyp and by the oracle only)']
     ctx.stage()
     lap(ctx, 'staged')
     ok = translate(ctx)
@@ -514,7 +521,7 @@ def run(ctx):
         lap(ctx, 'strtod model done')
         descs = correspond(ctx, exe, n_oracle + n_extra, n_oracle, n_inst)
     if descs is None:
-        descs = [orc.gen_desc(ctx.rng, ctx.thorough) for _ in range(n_oracle)]
+        descs = orc.fixed_cases() + [orc.gen_desc(ctx.rng, ctx.thorough) for _ in range(n_oracle)]
     oracle(ctx, known_witnesses() + descs)
     oracle_shipped(ctx)
     lap(ctx, 'oracle sweep done')
